@@ -749,7 +749,13 @@ def c17(ctx: Ctx) -> None:
               construct=construct_key('run_aw_threadsafe', 'bridge'))
     hs = [n for n in g.nodes if n.kind == 'except' and not n.meta.get('deferred')]
     # handlers in the worker (the function run by the executor): allowed only when every path out of them is a bare re-raise
+    from .common import handlers_catching
+    runs_ = [n for n in g.nodes if n.kind == 'call' and n.meta.get('deferred') and isinstance(n.ast.func, ast.Attribute)
+             and n.ast.func.attr == 'run_until_complete']
+    around_ = set().union(*[handlers_catching(g, n) for n in runs_]) if runs_ else None
     for h_ in [n for n in g.nodes if n.kind == 'except' and n.meta.get('deferred')]:
+        if around_ is not None and h_.id not in around_:
+            continue            # a handler elsewhere in the worker (around a guarded hook, say) never sees the awaitable's exception
         bare = [n for n in g.nodes if n.kind == 'raise' and getattr(n.ast, 'exc', None) is None]
         w_ = must_pass(g, [h_], [g.exit, g.raise_exit] + [n for n in g.nodes if n.kind in ('return', 'inline_return')], bare)
         ctx.check('C17-R4', f'worker handler except {norm(h_.ast.type) if h_.ast.type else "(bare)"} re-raises unchanged', g.loc(h_), w_ is None and bool(bare),
